@@ -3,7 +3,7 @@
    Model: model/FuncAn.v (FunctionAnalyser; tied to /repo by the shared correspondence run of
    ./check C01|C02|C09|C17 on generated bodies).  Spec: spec/Occurs.v (`occs true body` = every access
    the body performs; `occs false body` = the same outside the positions of the listed finding classes). *)
-From RattrV Require Import Base Str PyAst Naming Spell Context FuncAn Occurs FaCheck FaSpecCheck FaFacts FaMono C01Proofs C01Complete.
+From RattrV Require Import Base Str PyAst Naming Spell Context FuncAn Occurs FaCheck FaSpecCheck FaFacts FaMono C01Proofs C01Complete C01Calls.
 Open Scope string_scope.
 Open Scope list_scope.
 
@@ -71,4 +71,29 @@ Example C01_fragment_is_inhabited :
 Proof.
   split; [|reflexivity].
   repeat (constructor; simpl; try exact I; try reflexivity).
+Qed.
+
+(* ... and with CALLS: load expressions whose callees no custom analyser claims in the current scope chain (the
+   getattr family, sorted, collections.defaultdict are the custom ones), arguments and keyword arguments included,
+   nested to any depth - the visit ends normally, leaves the scope chain alone and reports every get and every call
+   that `occs false` lists (which prunes exactly the finding-class positions: slices, arguments of a call that sits
+   inside a spine) *)
+Theorem C01_loads_with_calls_are_complete :
+  forall mexists modulename c n, CFC n -> NoCustom mexists modulename c n -> forall s, v_ctx s = c ->
+    fst (visit mexists modulename n s) = Ok tt /\ v_ctx (snd (visit mexists modulename n s)) = c
+    /\ (forall nm, In (AGet, nm) (occs false n) -> reported nm (snd (visit mexists modulename n s)))
+    /\ (forall nm, In (ACall, nm) (occs false n) -> call_reported nm (snd (visit mexists modulename n s))).
+Proof. intros mexists modulename c n Hcf Hnc. exact (loads_with_calls_are_complete mexists modulename c n Hcf Hnc). Qed.
+Print Assumptions C01_loads_with_calls_are_complete.
+
+(* non-vacuity: f(a.b, k=c.d).e + g( *h )  in an empty scope chain *)
+Definition cfc_example : node :=
+  Other "BinOp" []
+    [EAttr (ECall (EName "f" Load (1, 0)) [EAttr (EName "a" Load (1, 2)) "b" Load (1, 2)] [EKw (Some "k") (EAttr (EName "c" Load (1, 9)) "d" Load (1, 9))] (1, 0)) "e" Load (1, 0);
+     ECall (EName "g" Load (1, 18)) [EStar (EName "h" Load (1, 21)) Load (1, 20)] [] (1, 18)].
+Example C01_calls_fragment_is_inhabited :
+  CFC cfc_example /\ NoCustom (fun _ => false) None [[]] cfc_example
+  /\ occs false cfc_example = [(AGet, "f().e"); (ACall, "g"); (AGet, "*h")].
+Proof.
+  split; [|split; [|reflexivity]]; repeat (constructor; simpl; try exact I; try reflexivity).
 Qed.
